@@ -16,6 +16,8 @@ import NumbersModel.Drv.NumFmt
 import NumbersModel.Drv.Grid
 import NumbersModel.Drv.Merge
 import NumbersModel.Drv.Cache
+import NumbersModel.Drv.Layout
+import NumbersModel.Drv.ObjectStore
 
 open NumbersModel.Drv
 
@@ -41,6 +43,8 @@ def dispatch (line : String) : String :=
     | "grid" :: rest => handleGrid rest
     | "merge" :: rest => handleMerge rest
     | "cache" :: rest => handleCache rest
+    | "layout" :: rest => handleLayout rest
+    | "ostore" :: rest => handleOStore rest
     | _ => none
   match r with
   | some s => s
